@@ -101,7 +101,48 @@ func ruleRowIndicators(c *Ctx) {
 				}
 			})
 			if len(ks) == 0 {
-				c.Undecided(R, side.fn, fn.Pos(), "result does not depend on the cluster number row % 3")
+				// the cluster never appears as such (e.g. the right side asks for (row+2)%3 directly): evaluate
+				// the result for every row number a symbol can have (0..89), the other quantities symbolic
+				var rowVals []ssa.Value
+				for v, name := range n.Bind {
+					if name == "row" {
+						rowVals = append(rowVals, v)
+					}
+				}
+				bad := ""
+				for r := int64(0); r < 90 && len(rowVals) > 0 && bad == ""; r++ {
+					env := map[ssa.Value]Poly{}
+					for _, v := range rowVals {
+						delete(n.Bind, v)
+						env[v] = pConst(r)
+					}
+					n.env = append(n.env, env)
+					var got Poly
+					cnt := 0
+					for _, cs := range n.valueCases(fn, nil, rets[0].Results[0], 0) {
+						if eq, _ := CondEquivalent(cs.cond, cTrue); eq {
+							got = cs.val
+							cnt++
+						} else if eq, _ := CondEquivalent(cs.cond, cFalse); !eq {
+							cnt = 99
+						}
+					}
+					n.env = n.env[:len(n.env)-1]
+					for _, v := range rowVals {
+						n.Bind[v] = "row"
+					}
+					want := pAdd(pConst(30*(r/3)), MustRef(quant[(int(r%3)+side.rot)%3]), 1)
+					if cnt != 1 || !pEqual(got, want) {
+						bad = fmt.Sprintf("row %d: %v (%d alternatives), expected %s", r, got, cnt, want)
+					}
+				}
+				if len(rowVals) == 0 {
+					c.Undecided(R, side.fn, fn.Pos(), "result does not depend on the cluster number row % 3")
+					continue
+				}
+				for k := 0; k < 3; k++ {
+					c.Check(R, fmt.Sprintf("%s/cluster%d", side.fn, k), fn.Pos(), bad == "", "30*(row/3) + the quantity of the cluster, for every row 0..89", orOK(bad))
+				}
 				continue
 			}
 			for k := int64(0); k < 3; k++ {
